@@ -506,8 +506,22 @@ func c02AnswerSalted(salt int) func(string) xp.Answer {
 // with different values: every evaluation must ask for exactly the paths the
 // expression denotes on that tree (a compiled machine carries no path state from
 // one evaluation to the next).
+// c02PfxMapOwn: the map a schema compiler supplies — the empty prefix is the module the expression is written in.
+func c02PfxMapOwn(pfx string) (string, error) {
+	if pfx == "" {
+		return "urn:own", nil
+	}
+	return c02PfxMap(pfx)
+}
+
 func c02Check(e *xp.Node, src string, res *core.CaseResult) {
-	m, err := expr.NewExprMachine(src, c02PfxMap)
+	pm := c02PfxMap
+	if len(src)%2 == 1 {
+		// (a prefix never changes which node is asked for, whatever the prefixes stand for)
+		pm = c02PfxMapOwn
+		res.Ev("expressions_compiled_with_a_namespace_for_the_empty_prefix", 1)
+	}
+	m, err := expr.NewExprMachine(src, pm)
 	if err != nil {
 		res.Fail("C02/compile-error", src, "supported location path rejected: "+core.Trunc(err.Error(), 400))
 		return
